@@ -7,7 +7,7 @@ cd /repo || exit 3
 if ! git diff --quiet; then echo "repo dirty"; exit 3; fi
 git apply "$diff" || { echo "patch does not apply"; exit 3; }
 cd /verif
-VERIF_SCRATCH=/var/tmp/seedrun-$$ ./check "$prop" "$@" > /var/tmp/seedrun-$$.log 2>&1
+VERIF_PARTIAL=1 VERIF_SCRATCH=/var/tmp/seedrun-$$ ./check "$prop" "$@" > /var/tmp/seedrun-$$.log 2>&1
 rc=$?
 git -C /repo checkout -- .
 grep -vE "^aborting" /var/tmp/seedrun-$$.log | grep -E "^\[|VIOLATION|KNOWN|finding" | cut -c1-260
